@@ -385,7 +385,77 @@ func (c *Ctx) GuardOpt(rule string, fn *ssa.Function, eff Effect, opt GuardOpts,
 		}
 		mergedRets = len(effs) > 0
 	}
-	if len(effs) == 0 {
+	// a result merged from several branches (`r := a; if c { r = b }; return r`, a named result): each incoming value
+	// that matches the effect is a return of that value, made on the edge on which it enters the merge
+	type phiRet struct {
+		from *ssa.BasicBlock
+		si   int
+		pos  string
+	}
+	var phiRets []phiRet
+	matchVal := func(v ssa.Value) (bool, bool) {
+		switch e := eff.(type) {
+		case Ret:
+			return glob(e.Glob, Path(v)), true
+		case RetNot:
+			return !globAny(e.Globs, Path(v)), true
+		}
+		return false, false
+	}
+	retIdx := func(n int) int {
+		i := 0
+		switch e := eff.(type) {
+		case Ret:
+			i = e.Idx
+		case RetNot:
+			i = e.Idx
+		}
+		if i < 0 {
+			i += n
+		}
+		return i
+	}
+	if _, isRetEff := matchVal(nil); isRetEff || true {
+		if _, ok := matchValKind(eff); ok {
+			for _, b := range fn.Blocks {
+				if len(b.Instrs) == 0 {
+					continue
+				}
+				ret, isRet := b.Instrs[len(b.Instrs)-1].(*ssa.Return)
+				if !isRet {
+					continue
+				}
+				i := retIdx(len(ret.Results))
+				if i < 0 || i >= len(ret.Results) {
+					continue
+				}
+				phi, isPhi := retOperand(ret, i).(*ssa.Phi)
+				if !isPhi {
+					continue
+				}
+				// the real return (rendered as phi(…)) is judged through its incoming values instead
+				kept := effs[:0]
+				for _, e := range effs {
+					if e != ssa.Instruction(ret) {
+						kept = append(kept, e)
+					}
+				}
+				effs = kept
+				for k, ev := range phi.Edges {
+					if m, _ := matchVal(ev); !m {
+						continue
+					}
+					pred := phi.Block().Preds[k]
+					for si, sc := range pred.Succs {
+						if sc == phi.Block() && predIndexOf(pred, si) == k {
+							phiRets = append(phiRets, phiRet{pred, si, c.P.InstrPos(ret)})
+						}
+					}
+				}
+			}
+		}
+	}
+	if len(effs) == 0 && len(phiRets) == 0 {
 		// the effect may have been moved into a helper this function calls: the calls then stand for it
 		if sites, via := helperEffectSites(fn, eff); len(sites) > 0 {
 			effs = sites
@@ -396,7 +466,7 @@ func (c *Ctx) GuardOpt(rule string, fn *ssa.Function, eff Effect, opt GuardOpts,
 			opt.Note += fmt.Sprintf(" (%s is not called here but every effect of its body is present: treated as inlined)", h)
 		}
 	}
-	if len(effs) == 0 {
+	if len(effs) == 0 && len(phiRets) == 0 {
 		if !opt.AllowZero {
 			c.add("guard", rule, fname+"#"+eff.String(), Undecided, c.P.Pos(fn.Pos()), "no instruction matches the effect (rule would be vacuous; the code moved or the effect shape changed)")
 		}
@@ -422,6 +492,15 @@ func (c *Ctx) GuardOpt(rule string, fn *ssa.Function, eff Effect, opt GuardOpts,
 				bad = append(bad, c.P.InstrPos(e))
 			}
 		}
+		if len(phiRets) > 0 {
+			ge, _ := guardEdges(fn, g)
+			pl := reachUnguarded(fn, ge, g.afters)
+			for _, pr := range phiRets {
+				if lim, ok := pl[pr.from]; ok && lim >= len(pr.from.Instrs) && !ge[edge{pr.from, pr.si}] {
+					bad = append(bad, pr.pos)
+				}
+			}
+		}
 		if mergedRets && len(bad) > 0 {
 			// judge each merged return per path: it counts only where the returned error may be nil
 			if mb, ok := mergedSuccessReturns(c.P, fn, g, effs); ok {
@@ -429,14 +508,18 @@ func (c *Ctx) GuardOpt(rule string, fn *ssa.Function, eff Effect, opt GuardOpts,
 			}
 		}
 		construct := fname + "#" + eff.String() + "⇐" + gs
-		if len(bad) > 0 && strictSplitHolds(fn, g, effs) {
+		if len(bad) > 0 && len(phiRets) == 0 && strictSplitHolds(fn, g, effs) {
 			// `x > y` written as `if x != y { if x < y { … } … }`: the strict fact is the conjunction of ≥ and ≠
 			bad = nil
 			descr = append(descr, "strict comparison established as ≥ and ≠ on every path")
 		}
 		if len(bad) == 0 {
-			c.add("guard", rule, construct, Held, c.P.InstrPos(effs[0]),
-				fmt.Sprintf("%d effect site(s); %d guard edge(s) removed [%s]; no unguarded path from entry%s", len(effs), len(removed), strings.Join(dedup(descr), "; "), opt.Note))
+			hpos := c.P.Pos(fn.Pos())
+			if len(effs) > 0 {
+				hpos = c.P.InstrPos(effs[0])
+			}
+			c.add("guard", rule, construct, Held, hpos,
+				fmt.Sprintf("%d effect site(s) + %d merged-result edge(s); %d guard edge(s) removed [%s]; no unguarded path from entry%s", len(effs), len(phiRets), len(removed), strings.Join(dedup(descr), "; "), opt.Note))
 		} else {
 			why := "an entry→effect path avoids every matching guard edge"
 			if len(removed) == 0 && len(g.afters) == 0 {
@@ -553,4 +636,14 @@ func (c *Ctx) GuardTrue(rule string, fn *ssa.Function, idx int, guards ...string
 			c.add("guard", rule, construct, Violated, bad[0], fmt.Sprintf("%s can return true without %q (returns at %s)", fname, gs, strings.Join(bad, ", ")))
 		}
 	}
+}
+
+func matchValKind(eff Effect) (string, bool) {
+	switch eff.(type) {
+	case Ret:
+		return "ret", true
+	case RetNot:
+		return "retnot", true
+	}
+	return "", false
 }
